@@ -60,6 +60,20 @@ var periodsC22 = []struct {
 	{"hourly", hourOfC22}, {"daily", dayOfC22}, {"weekly", weekOfC22}, {"monthly", monthOfC22}, {"yearly", yearOfC22},
 }
 
+// maxHoursC22 is the largest hour count whose nanoseconds fit into an int64 (2562047 h,
+// 292 years). Up to it the window edge is checked exactly; beyond it only "a larger
+// duration never removes a snapshot that was kept before" is claimed.
+const maxHoursC22 = int((1<<63 - 1) / int64(time.Hour))
+
+func exactC22(p ExpirePolicy) bool {
+	for _, d := range []Duration{p.Within, p.WithinHourly, p.WithinDaily, p.WithinWeekly, p.WithinMonthly, p.WithinYearly} {
+		if d.Hours > maxHoursC22 {
+			return false
+		}
+	}
+	return true
+}
+
 // futureC22: the generator keeps every stamp either <= 2025 or >= 2100, the check is
 // run between those years, so "in the future relative to when forget is run" is
 // decided without reading the clock.
@@ -405,6 +419,12 @@ func genDurationC22(t *rapid.T, label string, list []*Snapshot, density int) Dur
 			}
 		}
 		fallthrough
+	case 2:
+		if rapid.IntRange(0, 3).Draw(t, label+"huge") == 0 {
+			// up to the largest hour count a time.Duration can hold (292 years)
+			return Duration{Hours: rapid.OneOf(rapid.IntRange(maxHoursC22-3, maxHoursC22), rapid.IntRange(100000, maxHoursC22)).Draw(t, label+"H")}
+		}
+		fallthrough
 	default:
 		d := Duration{}
 		f := rapid.IntRange(1, 15).Draw(t, label+"f")
@@ -432,6 +452,12 @@ func genTagListC22(t *rapid.T) TagList {
 		return TagList{} // no requirement at all
 	case 2:
 		return TagList{"nosuch"}
+	case 3: // '' combined with a real tag, either order: nothing can satisfy it
+		l := TagList{"", rapid.SampledFrom(tagPoolC22).Draw(t, "tle")}
+		if rapid.Bool().Draw(t, "tlswap") {
+			l[0], l[1] = l[1], l[0]
+		}
+		return l
 	default:
 		return TagList(rapid.SliceOfN(rapid.SampledFrom(tagPoolC22), 1, 2).Draw(t, "tlv"))
 	}
@@ -474,7 +500,9 @@ func raiseCountC22(t *rapid.T, label string, n int) int {
 }
 
 func raiseDurC22(t *rapid.T, label string, d Duration) Duration {
-	switch rapid.IntRange(0, 3).Draw(t, label) {
+	switch rapid.IntRange(0, 4).Draw(t, label) {
+	case 4: // to, or beyond, what a time.Duration can hold
+		d.Hours = max(d.Hours+1, rapid.OneOf(rapid.IntRange(maxHoursC22-2, maxHoursC22+3), rapid.IntRange(maxHoursC22, 4*maxHoursC22)).Draw(t, label+"H"))
 	case 0:
 		d.Hours += rapid.IntRange(1, 50).Draw(t, label+"+")
 	case 1:
@@ -783,6 +811,18 @@ func TestVerifC22Policy(t *testing.T) {
 		if len(list) == 0 {
 			classes = append(classes, "empty-list")
 		}
+		for _, l := range p.Tags {
+			if len(l) == 2 && (l[0] == "") != (l[1] == "") {
+				classes = append(classes, "keep-tag=''+tag")
+				break
+			}
+		}
+		for _, d := range []Duration{p.Within, p.WithinHourly, p.WithinDaily, p.WithinWeekly, p.WithinMonthly, p.WithinYearly} {
+			if d.Hours >= 100000 {
+				classes = append(classes, "hours>=100000")
+				break
+			}
+		}
 		key := ""
 		if sameDay && nrules >= 2 {
 			key = fmt.Sprintf("%+v\n%s", p, describeC22(list))
@@ -832,7 +872,13 @@ func TestVerifC22Policy(t *testing.T) {
 
 		// ---- oracle 3: monotonicity
 		q, what := raisePolicyC22(t, p)
-		keep2, _, _ := checkPolicyC22(list, q, t.Fatalf)
+		var keep2 Snapshots
+		if exactC22(q) {
+			keep2, _, _ = checkPolicyC22(list, q, t.Fatalf)
+		} else {
+			keep2, _, _ = applyC22(list, q)
+			st.Class("raised-beyond-ns-range")
+		}
 		kept2 := map[*Snapshot]bool{}
 		for _, sn := range keep2 {
 			kept2[sn] = true
@@ -860,10 +906,27 @@ func stampsC22(list []*Snapshot) []time.Time {
 
 // TestVerifC22HugeDurations: the monotonicity sentence of the statement for hour counts
 // beyond the int64-nanosecond range (2 562 048 h = 292 years): `--keep-within 3000000h`
-// is accepted by the command line. A failure here whose shape is exactly "hours above
-// the nanosecond range" is finding C22:within-hours-overflow.
+// is accepted by the command line. Regression probe of the repaired finding
+// C22:within-hours-overflow (2562047h kept everything, 2562048h nothing).
 func TestVerifC22HugeDurations(t *testing.T) {
 	st := verifkit.Begin(t, "C22")
+	{ // the exact shape of the finding
+		var list []*Snapshot
+		for i, s := range []string{"2025-01-01T00:00:00Z", "2024-01-01T00:00:00Z", "2020-01-01T00:00:00Z"} {
+			ts, _ := time.Parse(time.RFC3339, s)
+			id := restic.Hash([]byte(fmt.Sprintf("c22p-%d", i)))
+			list = append(list, &Snapshot{Time: ts, id: &id})
+		}
+		for _, h := range []int{2000000, 2562047, 2562048, 3000000, 5124096, 1 << 40} {
+			for which := 0; which < 6; which++ {
+				d := Duration{Hours: h}
+				p := [...]ExpirePolicy{{Within: d}, {WithinHourly: d}, {WithinDaily: d}, {WithinWeekly: d}, {WithinMonthly: d}, {WithinYearly: d}}[which]
+				if keep, _, _ := applyC22(list, p); len(keep) != 3 {
+					t.Fatalf("%+v keeps %d of 3 snapshots that are at most 5 years old", p, len(keep))
+				}
+			}
+		}
+	}
 	const nsLimitHours = (1<<63 - 1) / int64(time.Hour) // 2562047
 	rapid.Check(t, func(t *rapid.T) {
 		n := rapid.IntRange(1, 6).Draw(t, "n")
@@ -898,9 +961,6 @@ func TestVerifC22HugeDurations(t *testing.T) {
 		}
 		for _, sn := range k1 {
 			if !in2[sn] {
-				if over && st.Known("C22:within-hours-overflow") {
-					return
-				}
 				t.Fatalf("raising the duration from %dh to %dh removed the snapshot of %s (kept before)\npolicy %+v\n%s",
 					h1, h2, sn.Time.Format(time.RFC3339), mk(h2), describeC22(list))
 			}
